@@ -306,7 +306,27 @@ def replay_accept_pointer(spec, vals, obligation, desc):
     return body, judge
 
 
-KINDS = {'convert': replay_convert, 'ptr_arith': replay_ptr_arith, 'arr_index': replay_arr_index,
+def replay_app_ptr_move_assign(spec, vals, obligation, desc):
+    body = PRE + '''int main(){
+  vsbx::region_base[0] = 0x100000000ull; vsbx::region_size[0] = 0x10000;
+  static rlbox_sandbox<vsbx> sb; sb.create_sandbox(0, (uintptr_t)0x100000000ull, (uintptr_t)0x10000);
+  static int x, y;
+  auto a = sb.get_app_pointer(&x); auto b = sb.get_app_pointer(&y);
+  auto tok_a = a.UNSAFE_sandboxed(sb); auto addr_a = a.to_tainted();
+  a = std::move(b);                       // overwrite a live owner
+  int still_registered = 1;
+  try { (void)sb.lookup_app_ptr(addr_a); } catch (const std::runtime_error&) { still_registered = 0; }
+  std::printf("old_token=%u\\n", (unsigned)tok_a);
+  std::printf("old_token_still_registered_after_overwrite=%d\\n", still_registered);
+  return 0; }
+'''
+
+    def judge(d):
+        return d.get('old_token_still_registered_after_overwrite') == '1'
+    return body, judge
+
+
+KINDS = {'app_ptr_move_assign': replay_app_ptr_move_assign, 'convert': replay_convert, 'ptr_arith': replay_ptr_arith, 'arr_index': replay_arr_index,
          'check_range': replay_check_range, 'unverified_ptr': replay_unverified_ptr,
          'assign_raw': replay_assign_raw, 'accept_pointer': replay_accept_pointer}
 
@@ -328,7 +348,7 @@ def replay(prop, inst, info, obligation, desc, vals, res, replay_dir):
     m = re.search(r'Trace for %s:\n(.*?)(?=\nTrace for |\n\*\* \d+ of \d+ failed|\Z)' % re.escape(obligation), res.trace or '', re.S)
     rec['verifier_output'] = (m.group(1)[-6000:] if m else (res.trace or '')[-6000:])
     spec = inst.replay
-    if spec and spec.get('kind') in KINDS and vals:
+    if spec and spec.get('kind') in KINDS and (vals or spec.get('no_inputs')):
         try:
             src, judge = KINDS[spec['kind']](spec, vals, obligation, desc)
             out, err = _run_cpp(src, os.path.join(replay_dir, 'native'), re.sub(r'[^A-Za-z0-9_]', '_', inst.name))
